@@ -17,6 +17,23 @@ C09 — model of the type checker (`src/passes/type_check.rs`) and the declarati
                                  assignment / declaration types, `return` against the function).
 
 Types, operators and values are the ones of the C11 model (`Ops.lean`, `Expr.lean`).
+
+Added later (same functions, additional arms; nothing about the older constructs changed):
+* expressions: difficulty switches `(a : : c)` (`diffSwitch`, `checkCases`), `++v` / `v--`
+  (`xcrement`), qualified enum constants `Enum.Name` (`enumConst`; a bare constant name is a `var`),
+  `offsetof(l)` / `timeof(l)` (`labelProp`), the general call `callx` with pseudo-arguments
+  (`@mask=` `@pop=` `@arg0=` `@nargs=` `@blob=`; `checkPseudos`, `pseudoCheck`) and with user-defined
+  functions as callees (`Ctx.fsig`; `const` / `inline` / exported, the type checker makes no
+  difference between them); function parameters are variables of the body (`Ctx.varTy`);
+* statements: `T a = e, b;` (`decls`), `const T a = e, b = f;` (`constDecls`); `return` is checked
+  against the innermost enclosing function at every depth (`ρ`);
+* two places where the code as it is leaves the rules, each a switch: `checksXcrementTarget`
+  (`--c` on a constant is accepted) and `computeTyEnumIsInt` (`compute_ty` of a string-enum
+  constant is `Int`; `check` is `check_expr` without its `debug_assert_eq!`, which then fires);
+* `evalT`: evaluation of the whole expression language (for `type_preservation`).
+Not modelled: explicit sub calls `@f(..)` / `f(..) async` (every one is rejected by the visitor
+since aa5781e, the harness never generates them), `meta` blocks (their scalars go through
+`visit_expr`), the warning for a value-returning function without `return`.
 -/
 namespace TruthModel.Types
 
@@ -52,6 +69,44 @@ structure Ctx where
   /-- `defs.var_const_expr(def_id).is_some()`: the variable is a `const` item (or a builtin /
   enum constant) -/
   isConst : Nat → Bool
+  /-- `defs.enum_ty(enum_name)` is `String` (`true`) or `Int` (`false`).  Every enum the
+  implementation declares has one of these two types: the built-in `EclSubName` is the only string
+  enum, mapfile enums (`!enum`) and the other built-in ones are `Int`. -/
+  enumStr : Nat → Bool := fun _ => false
+  /-- `defs.func_signature(def_id)` of a user-defined function (`const` / `inline` / exported):
+  parameter types from the keywords (`var` = untyped; `signature_from_func_ast` gives no parameter a
+  default) and the return type.  Calling an undefined function is a name-resolution error, so
+  the lookup is total. -/
+  fsig : Nat → List VarTy × ETy := fun _ => ([], .void)
+
+/-- `defs.enum_ty` -/
+def Ctx.enumTy (Γ : Ctx) (en : Nat) : Ty := if Γ.enumStr en then .str else .int
+
+/-- the parameters of a user-defined function as `SignatureParam`s (`default: None`) -/
+def Ctx.fparams (Γ : Ctx) (f : Nat) : List Param := (Γ.fsig f).1.map fun t => ⟨t, false⟩
+
+/-- `ctx.func_signature_from_ast(name)`: parameters and return type of the callee; `none` =
+"signature not known" (only possible for instructions, whose signatures always return void) -/
+def Ctx.calleeSig (Γ : Ctx) (user : Bool) (f : Nat) : Option (List Param × ETy) :=
+  if user then some (Γ.fparams f, (Γ.fsig f).2)
+  else match Γ.sig f with
+    | some ps => some (ps, .void)
+    | none => none
+
+/-- `ast::Var` at a place where it is written or declared (also the operand of `++` / `--`) -/
+structure VarRef where
+  isReg : Bool
+  id : Nat
+  sig : Option Sigil
+deriving Repr, DecidableEq, Inhabited
+
+def Ctx.refTy (Γ : Ctx) (v : VarRef) : VarTy :=
+  if v.isReg then Γ.regTy v.id else Γ.varTy v.id
+
+/-- `ast::PseudoArgKind` -/
+inductive PseudoKind where
+  | pop | arg0 | nargs | mask | blob
+deriving Repr, DecidableEq, Inhabited
 
 mutual
 inductive TExpr where
@@ -65,17 +120,55 @@ inductive TExpr where
   | ternary (c l r : TExpr)
   /-- instruction call `ins_f(args)` -/
   | call (f : Nat) (args : TArgs)
+  /-- difficulty switch `(first : c1 : : c3)`; the parser guarantees a first case, later cases
+  may be blank -/
+  | diffSwitch (first : TExpr) (rest : TCases)
+  /-- `++v` `v++` `--v` `v--`: `pre` = the operator comes first, `inc` = `++` (neither plays a
+  role in `check_expr`) -/
+  | xcrement (pre inc : Bool) (v : VarRef)
+  /-- `Enum.Name` (a bare enum-constant name is a `var` whose inherent type is the enum's) -/
+  | enumConst (en : Nat) (name : Nat)
+  /-- `offsetof(l)` / `timeof(l)` -/
+  | labelProp (l : Nat)
+  /-- the general call `name(@pseudo=e, .., args)`: `user = false` an instruction (alias),
+  `user = true` a user-defined function.  `call f args` is `callx false f .nil args`
+  (`C09.call_eq_callx`). -/
+  | callx (user : Bool) (f : Nat) (pseudos : TPseudos) (args : TArgs)
 inductive TArgs where
   | nil
   | cons (a : TExpr) (as : TArgs)
+/-- the cases of a difficulty switch after the first -/
+inductive TCases where
+  | nil
+  | blank (cs : TCases)
+  | case (e : TExpr) (cs : TCases)
+/-- `@kind=e` pseudo-arguments, in source order -/
+inductive TPseudos where
+  | nil
+  | cons (k : PseudoKind) (e : TExpr) (ps : TPseudos)
 end
 
 instance : Inhabited TExpr := ⟨.litI 0⟩
 instance : Inhabited TArgs := ⟨.nil⟩
+instance : Inhabited TCases := ⟨.nil⟩
+instance : Inhabited TPseudos := ⟨.nil⟩
 
 def TArgs.length : TArgs → Nat
   | .nil => 0
   | .cons _ as => as.length + 1
+
+def TArgs.isNil : TArgs → Bool
+  | .nil => true
+  | .cons _ _ => false
+
+def TPseudos.isNil : TPseudos → Bool
+  | .nil => true
+  | .cons _ _ _ => false
+
+/-- `ExprCall::blob().is_some()` -/
+def TPseudos.hasBlob : TPseudos → Bool
+  | .nil => false
+  | .cons k _ ps => k == .blob || ps.hasBlob
 
 /-- `ast::OpClass` (binary operators) -/
 inductive OpClass where
@@ -101,6 +194,8 @@ def prefixErr : String := "variable requires a type prefix"
 def arityErr : String := "wrong number of arguments to"
 def noSigErr : String := "signature not known for ANM opcode"
 def constAssignErr : String := "cannot assign to a constant"
+def pseudoCallErr : String := "forbidden pseudo-arg in function call"
+def blobArgsErr : String := "cannot supply both normal arguments and an args blob"
 
 /-! ## `ExprTypeChecker` -/
 
@@ -180,6 +275,31 @@ def unopTyWith (op : UnOp) (argTy : Unit → Outcome Ty) : Outcome Ty :=
   | .sigI | .castI => .ok .int
   | .sigF | .castF => .ok .float
 
+/-- `check_var_is_assignable` (0757655): `var_reg_from_ast` is `Err(def_id)` for everything that is
+not a register (alias), and constants cannot be written to. -/
+def checkAssignable (Γ : Ctx) (v : VarRef) : Outcome Unit :=
+  if !v.isReg && Γ.isConst v.id then .err constAssignErr else .ok ()
+
+/-- SWITCH: does `check_expr` reject `++c` / `c--` whose operand is a constant?  `false` = the
+code as it is: the `XcrementOp` arm calls `check_var` and `require_int` only, not
+`check_var_is_assignable` (which 0757655 added to assignments and `times` clobbers), so
+`const int c = 3; .. if (--c > 0) goto l;` is accepted and panics in lowering
+(`C09.xcrement_const_accepted`, open finding). -/
+def checksXcrementTarget : Bool := false
+
+/-- SWITCH: which type does `compute_ty` give `Enum.Name`?  `true` = the code as it is:
+`ast::Expr::EnumConst { .. } => ExprType::Value(ScalarType::Int)` whatever the enum's type, while
+`check_expr` answers `enum_ty(enum_name)`; on a constant of the string enum `EclSubName` the
+`debug_assert_eq!` of `check_expr` fires (`C09.computeTy_disagrees_on_string_enum`, open
+finding).  `false` = `compute_ty` asks `enum_ty` as well. -/
+def computeTyEnumIsInt : Bool := true
+
+/-- `pseudo_check` -/
+def pseudoCheck (k : PseudoKind) (t : Ty) : Outcome Unit :=
+  match k with
+  | .pop | .arg0 | .nargs | .mask => if t = .int then .ok () else .err tyErr
+  | .blob => if t = .str then .ok () else .err tyErr
+
 /-- `ast::Expr::compute_ty`: assumes a checked expression; on anything else it "may return
 anything" or hit one of its `expect`s (modelled as `panic`). -/
 def computeTy (Γ : Ctx) : TExpr → Outcome ETy
@@ -209,6 +329,15 @@ def computeTy (Γ : Ctx) : TExpr → Outcome ETy
     match Γ.sig f with
     | some _ => .ok .void          -- instruction signatures always return void
     | none => .panic "already type-checked"
+  | .diffSwitch first _ => computeTy Γ first
+  | .xcrement _ _ _ => .ok (.value .int)
+  | .enumConst en _ => .ok (.value (if computeTyEnumIsInt then .int else Γ.enumTy en))
+  | .labelProp _ => .ok (.value .int)
+  | .callx user f pseudos _ =>
+    if pseudos.hasBlob then .ok .void      -- "args blob always produces void"
+    else match Γ.calleeSig user f with
+      | some (_, rt) => .ok rt
+      | none => .panic "already type-checked"
 
 /-- `Signature::min_args` -/
 def minArgs : List Param → Nat
@@ -306,6 +435,52 @@ def check (Γ : Ctx) : TExpr → Outcome ETy
         | .err c => .err c
         | .panic s => .panic s
       else .err arityErr
+  | .diffSwitch first rest =>
+    match check Γ first >>= requireValue with
+    | .ok t =>
+      match checkCases Γ t rest with
+      | .ok () => .ok (.value t)
+      | .err c => .err c
+      | .panic s => .panic s
+    | .err c => .err c
+    | .panic s => .panic s
+  | .xcrement _ _ v =>
+    -- `let var_ty = self.check_var(var)?; self.require_int(var_ty, ..)?; Value(var_ty)`
+    match (if checksXcrementTarget then checkAssignable Γ v else .ok ()) with
+    | .ok () =>
+      match checkVar (Γ.refTy v) v.sig with
+      | .ok t =>
+        match requireExact t .int with
+        | .ok () => .ok (.value t)
+        | .err c => .err c
+        | .panic s => .panic s
+      | .err c => .err c
+      | .panic s => .panic s
+    | .err c => .err c
+    | .panic s => .panic s
+  | .enumConst en _ => .ok (.value (Γ.enumTy en))
+  | .labelProp _ => .ok (.value .int)
+  | .callx user f pseudos args =>
+    -- `check_expr_call`
+    match checkPseudos Γ pseudos with
+    | .ok () =>
+      -- "Only instruction-like calls are allowed to have pseudo-args"
+      if user = true ∧ pseudos.isNil = false then .err pseudoCallErr
+      -- "'@blob=' is incompatible with normal args"; "always void when providing a blob"
+      else if pseudos.hasBlob = true then
+        (if args.isNil = true then .ok .void else .err blobArgsErr)
+      else
+        match Γ.calleeSig user f with
+        | none => .err noSigErr
+        | some (ps, rt) =>
+          if minArgs ps ≤ args.length ∧ args.length ≤ maxArgs ps then
+            match checkArgs Γ args ps with
+            | .ok () => .ok rt                   -- `siggy.return_ty`
+            | .err c => .err c
+            | .panic s => .panic s
+          else .err arityErr
+    | .err c => .err c
+    | .panic s => .panic s
 
 /-- The two passes over the arguments of a call: `zip!(1.., args, &siggy.params)` pairs the
 arguments POSITIONALLY with all parameters (also the ones with defaults, which `min_args` does
@@ -328,19 +503,41 @@ def checkArgs (Γ : Ctx) : TArgs → List Param → Outcome Unit
       | .panic s => .panic s
     | .err c => .err c
     | .panic s => .panic s
+
+/-- the loop over `cases[1..]` of a difficulty switch: blank cases are skipped, every other case
+must be a value of the type `t` of the first (`output_ty = require_same((output_ty, other_ty))`
+leaves `output_ty` as it is) -/
+def checkCases (Γ : Ctx) (t : Ty) : TCases → Outcome Unit
+  | .nil => .ok ()
+  | .blank cs => checkCases Γ t cs
+  | .case e cs =>
+    match check Γ e >>= requireValue with
+    | .ok t' =>
+      match requireSame t t' with
+      | .ok _ => checkCases Γ t cs
+      | .err c => .err c
+      | .panic s => .panic s
+    | .err c => .err c
+    | .panic s => .panic s
+
+/-- "type check pseudos": every pseudo-argument value is examined (`collect_with_recovery`), the
+first failing one is reported first -/
+def checkPseudos (Γ : Ctx) : TPseudos → Outcome Unit
+  | .nil => .ok ()
+  | .cons k e ps =>
+    match check Γ e >>= requireValue with
+    | .ok t =>
+      match pseudoCheck k t with
+      | .ok () => checkPseudos Γ ps
+      | .err c => .err c
+      | .panic s => .panic s
+    | .err c => .err c
+    | .panic s => .panic s
 end
 
 /-! ## Statements -/
 
-/-- `ast::Var` at a place where it is written or declared -/
-structure VarRef where
-  isReg : Bool
-  id : Nat
-  sig : Option Sigil
-deriving Repr, DecidableEq, Inhabited
-
-def Ctx.refTy (Γ : Ctx) (v : VarRef) : VarTy :=
-  if v.isReg then Γ.regTy v.id else Γ.varTy v.id
+-- (`VarRef`, `Ctx.refTy`: defined before `TExpr`, the operand of `++` / `--` is one)
 
 /-- `ast::AssignOpKind` -/
 inductive AssignOp where
@@ -387,6 +584,11 @@ inductive Stmt where
   | interruptLabel (e : TExpr)
   /-- `+e:` -/
   | relTimeLabel (e : TExpr)
+  /-- `int a = 1, b;`: one keyword, several variables (the keyword of `x` is `Γ.varTy x`, the same
+  for all of them in a parsed program; `decl x init` is `decls [(x, init)]`) -/
+  | decls (ds : List (Nat × Option TExpr))
+  /-- `const int a = 1, b = 2;` -/
+  | constDecls (ds : List (Nat × TExpr))
 inductive Stmts where
   | nil
   | cons (s : Stmt) (ss : Stmts)
@@ -440,11 +642,6 @@ def checkCond (Γ : Ctx) (c : TExpr) : Outcome Unit :=
   | .ok t => requireExact t .int
   | .err c => .err c
   | .panic s => .panic s
-
-/-- `check_var_is_assignable` (0757655): `var_reg_from_ast` is `Err(def_id)` for everything that is
-not a register (alias), and constants cannot be written to. -/
-def checkAssignable (Γ : Ctx) (v : VarRef) : Outcome Unit :=
-  if !v.isReg && Γ.isConst v.id then .err constAssignErr else .ok ()
 
 /-- `check_stmt_assignment` after the assignability test -/
 def checkAssignTyped (Γ : Ctx) (v : VarRef) (op : AssignOp) (e : TExpr) : Outcome Unit :=
@@ -523,6 +720,17 @@ def checkConstDecl (cfg : Cfg) (Γ : Ctx) (x : Nat) (e : TExpr) : Outcome Unit :
     | .err c => .err c
     | .panic s => .panic s
 
+/-- `check_stmt_declaration`: `vars.iter().map(check_single_var_decl).collect_with_recovery()`:
+every variable is examined, the first diagnostic is the one of the first failing variable -/
+def checkDecls (Γ : Ctx) : List (Nat × Option TExpr) → Outcome Unit
+  | [] => .ok ()
+  | (x, init) :: rest => (checkDecl Γ x init).andThen (checkDecls Γ rest)
+
+/-- `Item::ConstVar` with several variables: `for (var, expr) in vars { .. errors.set(e) }` -/
+def checkConstDecls (cfg : Cfg) (Γ : Ctx) : List (Nat × TExpr) → Outcome Unit
+  | [] => .ok ()
+  | (x, e) :: rest => (checkConstDecl cfg Γ x e).andThen (checkConstDecls cfg Γ rest)
+
 /-- SWITCH: what `check_stmt_return` does for a `return` outside of every function
 (`script s { return; }`).  The pinned tree panicked
 (`cur_func_stack.last_mut().expect("return outside of function?!")`, value
@@ -574,6 +782,8 @@ def checkStmt (cfg : Cfg) (Γ : Ctx) (ρ : Option ETy) : Stmt → Outcome Unit
   | .script body => checkStmts cfg Γ ρ body
   | .interruptLabel e => if cfg.checksLabelExprs then checkCond Γ e else .ok ()
   | .relTimeLabel e => if cfg.checksLabelExprs then checkCond Γ e else .ok ()
+  | .decls ds => checkDecls Γ ds
+  | .constDecls ds => checkConstDecls cfg Γ ds
 def checkStmts (cfg : Cfg) (Γ : Ctx) (ρ : Option ETy) : Stmts → Outcome Unit
   | .nil => .ok ()
   | .cons s ss => (checkStmt cfg Γ ρ s).andThen (checkStmts cfg Γ ρ ss)
@@ -616,6 +826,11 @@ def required : List Param → List Param
 
 def ParamAccepts (p : Param) (t : Ty) : Prop := p.ty = .untyped ∨ p.ty = .typed t
 
+/-- the value type a pseudo-argument takes -/
+def PseudoTy : PseudoKind → Ty
+  | .pop | .arg0 | .nargs | .mask => .int
+  | .blob => .str
+
 mutual
 inductive HasType (Γ : Ctx) : TExpr → ETy → Prop
   | litI (v) : HasType Γ (.litI v) (.value .int)
@@ -631,10 +846,39 @@ inductive HasType (Γ : Ctx) : TExpr → ETy → Prop
   /-- one argument per required parameter, in order, each of the parameter's type -/
   | call {f args ps} : Γ.sig f = some ps → ArgsTyped Γ args (required ps) →
       HasType Γ (.call f args) .void
+  /-- all non-blank cases of a difficulty switch have one value type, the type of the switch -/
+  | diffSwitch {first rest t} : HasType Γ first (.value t) → CasesTyped Γ t rest →
+      HasType Γ (.diffSwitch first rest) (.value t)
+  /-- `++` / `--` apply to int variables only (through a sigil or not) and give an int -/
+  | xcrement {pre inc v} : ReadTy (Γ.refTy v) v.sig .int → HasType Γ (.xcrement pre inc v) (.value .int)
+  /-- a qualified enum constant has the type of its enum -/
+  | enumConst (en name) : HasType Γ (.enumConst en name) (.value (Γ.enumTy en))
+  | labelProp (l) : HasType Γ (.labelProp l) (.value .int)
+  /-- instruction call with pseudo-arguments but no `@blob`: as `call` -/
+  | callIns {f pseudos args ps} : PseudosTyped Γ pseudos → pseudos.hasBlob = false →
+      Γ.sig f = some ps → ArgsTyped Γ args (required ps) →
+      HasType Γ (.callx false f pseudos args) .void
+  /-- `ins_f(@blob="..")`: the blob stands for all arguments, so there are none; no signature is
+  needed -/
+  | callBlob {f pseudos} : PseudosTyped Γ pseudos → pseudos.hasBlob = true →
+      HasType Γ (.callx false f pseudos .nil) .void
+  /-- call of a user-defined function: no pseudo-arguments, one argument per parameter, each of
+  the parameter's type; the call has the function's return type -/
+  | callUser {f args} : ArgsTyped Γ args (Γ.fparams f) →
+      HasType Γ (.callx true f .nil args) (Γ.fsig f).2
 inductive ArgsTyped (Γ : Ctx) : TArgs → List Param → Prop
   | nil : ArgsTyped Γ .nil []
   | cons {a as p ps t} : HasType Γ a (.value t) → ParamAccepts p t → ArgsTyped Γ as ps →
       ArgsTyped Γ (.cons a as) (p :: ps)
+inductive CasesTyped (Γ : Ctx) : Ty → TCases → Prop
+  | nil {t} : CasesTyped Γ t .nil
+  | blank {t cs} : CasesTyped Γ t cs → CasesTyped Γ t (.blank cs)
+  | case {t e cs} : HasType Γ e (.value t) → CasesTyped Γ t cs → CasesTyped Γ t (.case e cs)
+/-- `@pop` `@arg0` `@nargs` `@mask` take an int, `@blob` a string -/
+inductive PseudosTyped (Γ : Ctx) : TPseudos → Prop
+  | nil : PseudosTyped Γ .nil
+  | cons {k e ps t} : HasType Γ e (.value t) → PseudoTy k = t → PseudosTyped Γ ps →
+      PseudosTyped Γ (.cons k e ps)
 end
 
 /-- only registers and non-constant variables can be written to -/
@@ -645,6 +889,11 @@ def AssignTy (op : AssignOp) (t : Ty) : Prop :=
   match op.binop with
   | none => True
   | some b => ∃ t', BinopTy b t t'
+
+/-- a declared variable and its initialiser (if any) have the same type -/
+def DeclOk (Γ : Ctx) (x : Nat) : Option TExpr → Prop
+  | none => True
+  | some e => ∃ t, Γ.varTy x = .typed t ∧ HasType Γ e (.value t)
 
 mutual
 def WellTypedStmt (Γ : Ctx) (ρ : Option ETy) : Stmt → Prop
@@ -673,6 +922,8 @@ def WellTypedStmt (Γ : Ctx) (ρ : Option ETy) : Stmt → Prop
   | .script body => WellTypedStmts Γ ρ body
   | .interruptLabel e => HasType Γ e (.value .int)
   | .relTimeLabel e => HasType Γ e (.value .int)
+  | .decls ds => ∀ p ∈ ds, DeclOk Γ p.1 p.2
+  | .constDecls ds => ∀ p ∈ ds, DeclOk Γ p.1 (some p.2)
 def WellTypedStmts (Γ : Ctx) (ρ : Option ETy) : Stmts → Prop
   | .nil => True
   | .cons s ss => WellTypedStmt Γ ρ s ∧ WellTypedStmts Γ ρ ss
@@ -697,6 +948,104 @@ def TExpr.erase : TExpr → Option Expr
     | some c', some l', some r' => some (.ternary c' l' r')
     | _, _, _ => none
   | .call _ _ => none
+  -- not expressions of the C11 model (`Expr.lean`)
+  | .diffSwitch _ _ => none
+  | .xcrement _ _ _ => none
+  | .enumConst _ _ => none
+  | .labelProp _ => none
+  | .callx _ _ _ _ => none
+
+/-! ## Evaluation of the whole expression language (for `type_preservation`)
+
+`AstVm::eval` (src/vm.rs) covers difficulty switches and `++` / `--`; it has no enum constants,
+label properties or calls (`unimplemented!`).  Enum constants and label properties evaluate to
+what the compiler replaces them by (their `const` value, an integer offset / time); calls have no
+value here (`err`, like every other case in which the machine's behaviour is not defined). -/
+
+/-- what the additional constructs read at run time -/
+structure XEnv where
+  /-- `AstVm::difficulty` -/
+  diff : Nat
+  /-- the `const` value of a qualified enum constant -/
+  enumVal : Nat → Nat → Value
+  /-- `offsetof` / `timeof` of a label -/
+  label : Nat → Int32
+
+mutual
+def evalT (F : FloatOps) (cs : Consts) (env : Env) (x : XEnv) : TExpr → Outcome Value
+  | .litI v => .ok (.int v)
+  | .litF b => .ok (.float b)
+  | .litS s => .ok (.str s)
+  | .reg r sig => .ok (env.reg r sig)
+  | .var n sig =>
+    match cs n with
+    | some v => match castBySigil F v sig with
+      | some w => .ok w
+      | none => .panic "cannot cast"
+    | none => .ok (env.loc n sig)
+  | .unop op e =>
+    match evalT F cs env x e with
+    | .ok v =>
+      match sigilOfUnop op with
+      | some s => match castBySigil F v (some s) with
+        | some w => .ok w
+        | none => .panic "vm cannot evaluate unop"
+      | none => match unop F op v with
+        | .ok (some w) => .ok w
+        | .ok none => .panic "vm cannot evaluate unop"
+        | .err c => .err c
+        | .panic s => .panic s
+    | .err c => .err c
+    | .panic s => .panic s
+  | .binop op a b =>
+    match evalT F cs env x a with
+    | .ok va => match evalT F cs env x b with
+      | .ok vb => binop F op va vb
+      | .err c => .err c
+      | .panic s => .panic s
+    | .err c => .err c
+    | .panic s => .panic s
+  | .ternary c l r =>
+    match evalT F cs env x c with
+    | .ok (.int v) => if v = 0 then evalT F cs env x r else evalT F cs env x l
+    | .ok _ => .panic "type error"
+    | .err c => .err c
+    | .panic s => .panic s
+  | .call _ _ => .err "func calls in VM exprs"
+  -- `select_diff_switch_case`: the case of the current difficulty, a blank one stands for the
+  -- closest explicit case before it; only the selected case is evaluated
+  | .diffSwitch first rest => evalCaseT F cs env x x.diff (fun _ => evalT F cs env x first) rest
+  | .xcrement pre inc v =>
+    -- `read_var_by_ast`, then `panic!("type error")` unless the value is an int
+    match (if v.isReg then .ok (env.reg v.id v.sig) else
+            match cs v.id with
+            | some c => match castBySigil F c v.sig with
+              | some w => Outcome.ok w
+              | none => .panic "cannot cast"
+            | none => .ok (env.loc v.id v.sig)) with
+    | .ok (.int old) =>
+      let new := if inc then old + 1 else old + (-1)
+      .ok (.int (if pre then new else old))
+    | .ok _ => .panic "type error"
+    | .err c => .err c
+    | .panic s => .panic s
+  | .enumConst en n => .ok (x.enumVal en n)
+  | .labelProp l => .ok (.int (x.label l))
+  | .callx _ _ _ _ => .err "func calls in VM exprs"
+/-- `cur` = the closest explicit case so far (unevaluated), `d` = difficulties still to skip;
+a difficulty beyond the last case trips `assert!(difficulty < cases.len())`, which is not a type
+error: no value (`err`) -/
+def evalCaseT (F : FloatOps) (cs : Consts) (env : Env) (x : XEnv) :
+    Nat → (Unit → Outcome Value) → TCases → Outcome Value
+  | 0, cur, _ => cur ()
+  | _ + 1, _, .nil => .err "no case for this difficulty"
+  | d + 1, cur, .blank rest => evalCaseT F cs env x d cur rest
+  | d + 1, _, .case e rest => evalCaseT F cs env x d (fun _ => evalT F cs env x e) rest
+end
+
+/-- the run-time values of the additional constructs respect the declared types -/
+structure XEnvOk (Γ : Ctx) (x : XEnv) : Prop where
+  enum : ∀ en n, (x.enumVal en n).ty = Γ.enumTy en
 
 /-! ## Vocabulary of the theorems in `Props/C09.lean` -/
 
@@ -736,6 +1085,9 @@ def Covered (cfg : Cfg) (Γ : Ctx) : Stmt → Prop
   | .condJump _ => True
   | .inert => True
   | .ret _ => True
+  | .decls _ => True
+  | .constDecls ds => cfg.checksConstDeclTy = true ∨
+      ∀ p ∈ ds, ∃ t, litTy p.2 = some t ∧ Γ.varTy p.1 = .typed t
 def CoveredS (cfg : Cfg) (Γ : Ctx) : Stmts → Prop
   | .nil => True
   | .cons s ss => Covered cfg Γ s ∧ CoveredS cfg Γ ss
@@ -761,10 +1113,32 @@ def subsE : TExpr → List TExpr
   | .binop op a b => .binop op a b :: (subsE a ++ subsE b)
   | .ternary c l r => .ternary c l r :: (subsE c ++ subsE l ++ subsE r)
   | .call f args => .call f args :: subsA args
+  | .diffSwitch first rest => .diffSwitch first rest :: (subsE first ++ subsC rest)
+  | .xcrement pre inc v => [.xcrement pre inc v]
+  | .enumConst en n => [.enumConst en n]
+  | .labelProp l => [.labelProp l]
+  | .callx u f ps args => .callx u f ps args :: (subsP ps ++ subsA args)
 def subsA : TArgs → List TExpr
   | .nil => []
   | .cons a as => subsE a ++ subsA as
+def subsC : TCases → List TExpr
+  | .nil => []
+  | .blank cs => subsC cs
+  | .case e cs => subsE e ++ subsC cs
+def subsP : TPseudos → List TExpr
+  | .nil => []
+  | .cons _ e ps => subsE e ++ subsP ps
 end
+
+/-- no qualified constant of a string enum occurs in `e` (the one place where `compute_ty`
+and `check_expr` disagree, see `computeTyEnumIsInt`) -/
+def NoStrEnumConst (Γ : Ctx) (e : TExpr) : Prop :=
+  ∀ en n, .enumConst en n ∈ subsE e → Γ.enumStr en = false
+
+/-- no `++` / `--` in `e` writes to a constant (what `check_var_is_assignable` demands of
+assignment and clobber targets; `check_expr` does not demand it, see `checksXcrementTarget`) -/
+def WritesOk (Γ : Ctx) (e : TExpr) : Prop :=
+  ∀ pre inc v, .xcrement pre inc v ∈ subsE e → Assignable Γ v
 
 
 end TruthModel.Types
